@@ -46,10 +46,11 @@ type CopyParams struct {
 	FilterAnnRe string         `json:"filter_ann_re,omitempty"`
 	NFaults     int            `json:"n_faults,omitempty"`
 	FaultPicks  []uint64       `json:"fault_picks,omitempty"`
-	Faults      []FaultSpec    `json:"faults,omitempty"`      // explicit placement (resolved from picks on first run)
-	RegProfile  *RegProfile    `json:"reg_profile,omitempty"` // remote stores: capability profile of the simulated registries
-	MountFrom   bool           `json:"mount_from,omitempty"`  // remote destination: offer the sibling repository as mount source
-	MountList   int            `json:"mount_list,omitempty"`  // which candidate list MountFrom returns (see mountLists)
+	Faults      []FaultSpec    `json:"faults,omitempty"`        // explicit placement (resolved from picks on first run)
+	RefPageSize int            `json:"ref_page_size,omitempty"` // remote stores: Repository.ReferrerListPageSize (the registry may serve shorter pages)
+	RegProfile  *RegProfile    `json:"reg_profile,omitempty"`   // remote stores: capability profile of the simulated registries
+	MountFrom   bool           `json:"mount_from,omitempty"`    // remote destination: offer the sibling repository as mount source
+	MountList   int            `json:"mount_list,omitempty"`    // which candidate list MountFrom returns (see mountLists)
 	// C01: the context ends before the call (Op "call") or at the named operation; a call that
 	// still reports success is judged like any other
 	CancelAt  *FaultSpec   `json:"cancel_at,omitempty"`
@@ -174,6 +175,9 @@ func (p *copyProp) Gen(r *Rand, tier string, idx int) any {
 	}
 	if o.Fanout && cp.RegProfile != nil {
 		cp.RegProfile.RefCap = r.Range(1, 2)
+	}
+	if cp.RegProfile != nil && cp.RegProfile.RefCap > 0 && r.Chance(0.7) {
+		cp.RefPageSize = r.Range(2, 5)
 	}
 	cp.Graph = *GenGraph(r, o)
 	g := cp.Graph.Build()
@@ -310,6 +314,9 @@ func (p *copyProp) Gen(r *Rand, tier string, idx int) any {
 		if r.Chance(0.3) {
 			cp.NFaults = 1
 			cp.FaultPicks = []uint64{r.U64(), r.U64()}
+			if r.Chance(0.25) {
+				cp.FaultPicks[1] = uint64(cp.Root) // the root's own callbacks (Copy wraps them to tag the root)
+			}
 		} else if cp.MountFrom && cp.DstKind == "remote" && r.Chance(0.5) {
 			// the registry fails one exchange of a mount (its POST, or the upload the mount
 			// turned into after the source content had been asked for)
@@ -545,6 +552,7 @@ func makeStore(rc *RunCtx, kind, name string) (*builtStore, error) {
 			return nil, err
 		}
 		repo.Client = &http.Client{Transport: reg}
+		repo.ReferrerListPageSize = rc.refPageSize
 		return &builtStore{kind: kind, target: repo, close: func() {}, reg: reg}, nil
 	}
 	return nil, fmt.Errorf("unknown store kind %q", kind)
@@ -640,6 +648,7 @@ var mountLists = [][]string{
 func setupStores(rc *RunCtx, g *Graph, cp *CopyParams) (*copyEnv, error) {
 	ctx := context.Background()
 	rc.regProfile = cp.RegProfile
+	rc.refPageSize = cp.RefPageSize
 	src, err := makeStore(rc, cp.SrcKind, "src")
 	if err != nil {
 		return nil, err
